@@ -18,4 +18,14 @@ PROPS = {
         assumptions=COMMON_ASSUME + ["error messages are valid UTF-8 (json.Marshal replaces invalid bytes)",
                                      "user-built Error.Data is valid JSON"],
     ),
+    "C17": dict(
+        lean_modules=["Jrpc.Props.C17", "Jrpc.Tie.C17"],
+        namespaces=["Jrpc.Props.C17", "Jrpc.Tie.C17"],
+        harness_test="TestC17",
+        min_theorems=15,
+        level_text="Machine-checked Lean theorems over a model of Map.Assign, ServiceMap.Assign (split at the FIRST dot, arbitrary nesting by composition), Names (bytewise sorted permutation of all composed names) and the reserved-prefix gate of assignLocked, for ALL byte-string method names; the reserved prefix / built-in name come from the current source (Tie.C17; go2lean fails if the gate is no longer `s.builtin && HasPrefix(name, lit)`), and the model is compared with a real Server on an exhaustive name space.",
+        level_note="Trusted: Lean kernel, go2lean, harness; Go map lookup and sort.Strings are modelled (list lookup on duplicate-free keys; merge sort on bytewise order). Context population (InboundRequest / ServerFromContext) is checked on the implementation only.",
+        trusted_base=["Go map lookup, strings.SplitN, strings.HasPrefix, sort.Strings as documented (modelled)"],
+        assumptions=COMMON_ASSUME + ["method names are non-empty (an empty method is not a request: C02)"],
+    ),
 }
